@@ -11,6 +11,7 @@
   the transports themselves, and that the C code equals the model (that is the correspondence check).
 -/
 import PdshVerif.Exec.Lemmas
+import PdshVerif.Exec.EndToEnd
 import PdshVerif.Opt.RcmdLemmas
 
 namespace PdshVerif.C09
@@ -444,6 +445,103 @@ theorem f09_2br_witness :
     run cfg [w] w.full ≠ .lines (expectedLines cfg [w] w.full)
     ∧ (expectedLines cfg [w] w.full).map (·.user) = List.replicate 4 "u".toList := by
   decide
+
+/-! ## end to end: from the command line to what the transport does -/
+
+/-- what xrcmd writes before its first read, write by write, is the request of the specification -/
+theorem xrcmd_writes_request (port : Option Nat) (luser ruser cmd : List Char) :
+    (xrcmdWrites port luser ruser cmd).flatten = rshRequest port luser ruser cmd := by
+  cases port <;> simp [xrcmdWrites, rshRequest, portField]
+
+/-- ... so the peer reads exactly (stderr port, local user, remote user, command), and nothing else
+    parses out of those bytes -/
+theorem wire_request_exact (port : Option Nat) (luser ruser cmd : List Char)
+    (hl : nul ∉ luser) (hr : nul ∉ ruser) (hc : nul ∉ cmd) :
+    parseRequest (xrcmdWrites port luser ruser cmd).flatten = some (portField port, luser, ruser, cmd) ∧
+    ∀ t, parseRequest (xrcmdWrites port luser ruser cmd).flatten = some t →
+      t = (portField port, luser, ruser, cmd) := by
+  have h := rshRequest_roundtrip port luser ruser cmd hl hr hc
+  rw [xrcmd_writes_request]
+  refine ⟨h, ?_⟩
+  intro t ht
+  rw [h] at ht
+  exact (Option.some.inj ht).symm
+
+theorem joinCmd_nul_free (argv : List Str) (h : ∀ a ∈ argv, nul ∉ a) : nul ∉ joinCmd argv := by
+  induction argv with
+  | nil => simp [joinCmd]
+  | cons a rest ih =>
+    cases rest with
+    | nil => simpa [joinCmd] using h a (by simp)
+    | cons b r =>
+      simp only [joinCmd, List.mem_append, List.mem_cons, not_or]
+      refine ⟨h a (by simp), by decide, ?_⟩
+      exact ih (fun x hx => h x (by simp [hx]))
+
+/-- -R exec: the helper is started as the first command word, its argv is the basename of that word
+    followed by every further command word with exactly %h %u %n %% replaced -- the words as they
+    stand on pdsh's command line, never re-split -/
+theorem exec_argv_exact (e : Env) (w0 : List Char) (rest : List (List Char)) (cmd tail : List Char)
+    (hn : ∀ a ∈ rest, nul ∉ a) :
+    execCall repaired e (w0 :: rest) cmd tail = some ⟨w0, xbasename w0 :: rest.map (expected e)⟩ := by
+  obtain ⟨l, hl, hv, _⟩ := argv_length_preserved e (xbasename w0) rest tail hn
+  simp [execCall, execWords, hl, hv, expectedArgv]
+
+/-- interactive mode (no command words): `sh -c <command line>`, the escapes replaced inside the line -/
+theorem exec_argv_interactive (e : Env) (cmd tail : List Char) (hc : nul ∉ cmd) :
+    execCall repaired e [] cmd tail =
+      some ⟨"sh".toList, ["sh".toList, "-c".toList, expected e cmd]⟩ := by
+  have hn : ∀ a ∈ ["-c".toList, cmd], nul ∉ a := by
+    intro a ha
+    simp only [List.mem_cons, List.mem_nil_iff, or_false] at ha
+    rcases ha with ha | ha
+    · subst ha; decide
+    · subst ha; exact hc
+  obtain ⟨l, hl, hv, _⟩ := argv_length_preserved e (xbasename "sh".toList) ["-c".toList, cmd] tail hn
+  have hb : xbasename "sh".toList = "sh".toList := by decide
+  have hd : expected e "-c".toList = "-c".toList := no_percent_id e _ (by decide)
+  rw [hb] at hl hv
+  simp only [execCall, execWords, hb, hl, Option.map_some, hv, expectedArgv, List.map_cons, List.map_nil, hd]
+
+theorem expectedLines_get (cfg : Cfg) (words : List Word) (targets : List Str) (i : Nat)
+    (hi : i < targets.length) :
+    ∃ hi' : i < (expectedLines cfg words targets).length,
+      (expectedLines cfg words targets)[i] =
+        ⟨(hostInfo cfg words targets[i]).1, targets[i], (hostInfo cfg words targets[i]).2, i⟩ := by
+  refine ⟨by simp [expectedLines, hi], ?_⟩
+  simp [expectedLines]
+
+/-- the whole chain for exec: in a run that takes place (`ls` = its connections, equal to the
+    specified ones by `run_eq_spec` / `run_eq_spec_reexpand`), the helper for the i-th target gets
+    the command words with host = that target, user = what the first annotated word naming it (or
+    -l, or the local user) says, rank = i -/
+theorem exec_end_to_end (cfg : Cfg) (words : List Word) (targets : List Str) (ls : List Line)
+    (hls : ls = expectedLines cfg words targets) (i : Nat) (hi : i < targets.length)
+    (w0 : List Char) (rest : List (List Char)) (cmd tail : List Char) (hn : ∀ a ∈ rest, nul ∉ a) :
+    ∃ hi' : i < ls.length,
+      execCall repaired ⟨ls[i].host, ls[i].user, ls[i].rank⟩ (w0 :: rest) cmd tail =
+        some ⟨w0, xbasename w0 ::
+          rest.map (expected ⟨targets[i], (hostInfo cfg words targets[i]).2, i⟩)⟩ := by
+  subst hls
+  obtain ⟨hi', hg⟩ := expectedLines_get cfg words targets i hi
+  refine ⟨hi', ?_⟩
+  rw [hg]
+  exact exec_argv_exact _ w0 rest cmd tail hn
+
+/-- the whole chain for rsh: the request for the i-th target is (stderr port, local user, the
+    specified remote user, the command words joined by single blanks) -/
+theorem rsh_end_to_end (cfg : Cfg) (words : List Word) (targets : List Str) (ls : List Line)
+    (hls : ls = expectedLines cfg words targets) (i : Nat) (hi : i < targets.length)
+    (port : Option Nat) (argv : List Str) (hargv : ∀ a ∈ argv, nul ∉ a) (hlu : nul ∉ cfg.luser)
+    (hru : nul ∉ (hostInfo cfg words targets[i]).2) :
+    ∃ hi' : i < ls.length,
+      parseRequest (xrcmdWrites port cfg.luser ls[i].user (joinCmd argv)).flatten =
+        some (portField port, cfg.luser, (hostInfo cfg words targets[i]).2, joinCmd argv) := by
+  subst hls
+  obtain ⟨hi', hg⟩ := expectedLines_get cfg words targets i hi
+  refine ⟨hi', ?_⟩
+  rw [hg]
+  exact (wire_request_exact port cfg.luser _ (joinCmd argv) hlu hru (joinCmd_nul_free argv hargv)).1
 
 /-- the hypotheses of the theorems above are satisfiable by a non-trivial run: two overlapping
     annotated words, -l, and a default from the rank list -/
